@@ -292,7 +292,7 @@ func c01RunInner(w *explore.Worker, c c01Case) {
 			fail("reference-decoder-disagrees", fmt.Sprint(err))
 		}
 	case "InfoFork":
-		name := pat([]int{0, 1, 2, 31, 128, 255}[a%6], ch)
+		name := pat([]int{0, 1, 2, 31, 128, 255, 65461, 65535}[a%8], ch) // the name has a two-byte length prefix
 		comment := pat([]int{0, 1, 2, 255, 256, 1000}[b%6], 'c')
 		f := hotline.NewFlatFileInformationFork(string(name), [8]byte{7, 0xe8, 0, 0, 0, 0, 0, byte(cc)}, "TEXT", "ttxt")
 		if len(comment) > 0 || d%2 == 0 {
@@ -601,6 +601,7 @@ func c01Cases(thorough bool) []c01Case {
 		}
 		if a < 2 {
 			add("FileHeader", 6+a, 1, 0, a) // paths longer than the item scanner's start buffer
+			add("InfoFork", 6+a, a, 1, 0)   // names near the limit of the two-byte length prefix
 		}
 		for b := 0; b < 6; b++ {
 			add("InfoFork", a, b, a+b, a*b)
